@@ -154,6 +154,7 @@ def run(ctx, progs):
                         ok = True
                 ctx.ob("R14.3.slice_exact_form", b.key, ok, b.where(), f"{meth.split('::')[-1]}(stream, &get_slice(addr, count)?) — all-or-error target, then the exact loop")
         # ------------------------------------------------------------ R14.4 guest forms (shared with C03)
+        c03.rule_try_access(ctx, prog, eff)
         c03.rule_clients(ctx, prog, eff)
     ctx.not_decided = ["byte-exactness under every fault script (needs execution against scripted streams)"]
     return ctx.finish(
